@@ -613,4 +613,6 @@ func generate() {
 	wideCases(g.Fork())
 	directCases(g.Fork()) // precomp / split / rsh_x tied directly (direct.go)
 	apiCases(g.Fork())    // BaseMultiply / BaseMultiplyAdd / Multiply / ParsePubkey on byte strings (api.go)
+	histCases(g.Fork())   // histories of calls on one file of objects: operands and registers re-used (history.go)
+	concStreams(g.Fork()) // several callers at once, nothing shared (concurrent.go)
 }
